@@ -130,6 +130,8 @@ class Translator:
         self.sigs = {}          # qualified python name -> [(param, default ast or None)]
         self.oracles = {}
         self.drop_params = set()
+        self.constructors = set()
+        self.identity_calls = set()
 
     def module(self, relpath):
         if relpath not in self.modules:
@@ -262,16 +264,18 @@ class FuncTranslator:
         if a.vararg or a.kwarg or a.kwonlyargs or a.posonlyargs:
             raise Unsupported("%s: unsupported signature" % fn.name)
         params = [p.arg for p in a.args]
-        if params and params[0] == "self":
-            raise Unsupported("methods with self are not in the logic subset")
         defaults = [None] * (len(params) - len(a.defaults)) + list(a.defaults)
+        self.is_method = bool(params) and params[0] == "self"
+        if self.is_method:
+            params, defaults = params[1:], defaults[1:]
         self.tr.sigs[self.mod.modname + "." + fn.name] = list(zip(params, defaults))
         self.locals = set(params)
         for n in ast.walk(fn):
             if isinstance(n, ast.Name) and isinstance(n.ctx, ast.Store):
                 self.locals.add(n.id)
         body = self.block(list(fn.body), live_after=set(), rest=None)
-        ps = [p for p in params] + self.extra_params
+        ps = [p for p in params] + [p for p in self.extra_params if not p.startswith("self_")] \
+            + sorted(p for p in self.extra_params if p.startswith("self_"))
         sig = " ".join("(%s : val)" % p for p in ps)
         return "Definition %s %s : res val :=\n%s." % (coq_name, sig, body)
 
@@ -295,7 +299,8 @@ class FuncTranslator:
                     continue
                 st = ast.If(test=st.test, body=b, orelse=o)
             out.append(st)
-            live |= names_read([st])
+            if not isinstance(st, ast.Raise):      # exception messages are not modelled
+                live |= names_read([st])
         out.reverse()
         return out
 
@@ -571,6 +576,11 @@ class FuncTranslator:
         raise Unsupported("type %s" % ast.dump(t))
 
     def attribute(self, e):
+        if isinstance(e.value, ast.Name) and e.value.id == "self" and getattr(self, "is_method", False):
+            nm = "self_" + e.attr
+            if nm not in self.extra_params:
+                self.extra_params.append(nm)
+            return "(Ok %s)" % nm
         # Enum member
         if isinstance(e.value, ast.Name) and e.value.id not in self.locals:
             q = self.tr.qualify(self.mod, e.value.id, self.locals)
@@ -636,6 +646,11 @@ class FuncTranslator:
                     self.extra_params.append(fresh[0])
                 return "(Ok %s)" % fresh[0]
             q = self.tr.qualify(self.mod, f.id, self.locals)
+            if f.id in self.tr.constructors:
+                # a class instantiation: only which class is built matters to the logic model
+                return "(Ok (VObj %s 0))" % coq_string(f.id)
+            if f.id in self.tr.identity_calls:
+                return self.expr(e.args[0])
             if q in CALLS:
                 g, ar = CALLS[q]
                 if e.keywords or len(e.args) != ar:
